@@ -120,9 +120,7 @@ class ArgumentsGenerator:
             return self._parse_named_type_node(node, nullable)
 
         if isinstance(node, ListTypeNode):
-            sub_annotation, used_custom_scalar = self._parse_type_node(
-                node.type, nullable
-            )
+            sub_annotation, used_custom_scalar = self._parse_type_node(node.type, True)
             return (
                 generate_list_annotation(sub_annotation, nullable),
                 used_custom_scalar,
